@@ -56,6 +56,8 @@ extern int te_preemptions;         /* thread bodies started by a preemption choi
 extern int te_keys_live, te_keys_created, te_keys_deleted, te_threads_unreaped, te_attr_live;
 extern int te_mutex_live, te_cond_live, te_rwlock_live;
 extern int te_faults_left, te_faults_taken;
+extern int te_create_errno_choice;
+extern int te_fault_at, te_fallible_calls;   /* concrete alternative: the te_fault_at-th fallible pthread call fails (1-based) */
 extern int te_no_preempt;          /* harness switch: suppress preemption choices */
 
 void te_preempt(void);             /* preemption point */
@@ -99,6 +101,14 @@ int te_pthread_mutex_trylock(pthread_mutex_t *m);
 int te_pthread_mutex_unlock(pthread_mutex_t *m);
 int te_pthread_cond_init(pthread_cond_t *c, const pthread_condattr_t *a);
 int te_pthread_cond_destroy(pthread_cond_t *c);
+int te_pthread_cond_wait(pthread_cond_t *c, pthread_mutex_t *m);
+int te_pthread_cond_signal(pthread_cond_t *c);
+int te_pthread_cond_broadcast(pthread_cond_t *c);
+int te_pthread_rwlock_rdlock(pthread_rwlock_t *l);
+int te_pthread_rwlock_wrlock(pthread_rwlock_t *l);
+int te_pthread_rwlock_tryrdlock(pthread_rwlock_t *l);
+int te_pthread_rwlock_trywrlock(pthread_rwlock_t *l);
+int te_pthread_rwlock_unlock(pthread_rwlock_t *l);
 int te_pthread_rwlock_init(pthread_rwlock_t *l, const pthread_rwlockattr_t *a);
 int te_pthread_rwlock_destroy(pthread_rwlock_t *l);
 #endif
